@@ -28,6 +28,8 @@ classes = collections.Counter()
 sizes = collections.Counter()
 aux = collections.Counter()
 dsizes = collections.Counter()
+variants = collections.Counter()
+merges = collections.Counter()
 
 
 def hexs(b):
@@ -63,6 +65,78 @@ def gen_text(maxcols, wide_ok=True):
     return "".join(out).encode(), "mixed"
 
 
+# RGB8 secondaries: the extremes, values that differ from one another in a single channel (each of r, g, b)
+RGBS = ["000000", "000000", "ffffff", "ff0000", "00ff00", "102030", "000001", "000100", "010000", "102031", "fffffe"]
+DEFAULTS = {"fg": "-1", "bg": "-1", "b": "0", "u": "0", "i": "0", "rv": "0", "strike": "0", "af": "0", "blink": "0"}
+ATTR_ORDER = ["fg", "bg", "b", "u", "i", "rv", "strike", "af", "blink"]
+
+
+def pen_items(spec):
+    if spec in ("NULL", "-"):
+        return {}
+    return dict(t.split("=", 1) for t in spec.split(","))
+
+
+def pen_spec(items):
+    return ",".join(f"{k}={items[k]}" for k in ATTR_ORDER if k in items) or "-"
+
+
+def rgb_neighbour(v):
+    """Another RGB8 value: one channel changed by one, or one of the secondaries."""
+    if rng.random() < 0.5:
+        ch = [int(v[i:i + 2], 16) for i in (0, 2, 4)]
+        k = rng.randint(0, 2)
+        ch[k] = ch[k] + 1 if ch[k] < 255 and (ch[k] == 0 or rng.random() < 0.5) else ch[k] - 1
+        return "%02x%02x%02x" % tuple(ch)
+    return rng.choice([x for x in RGBS if x != v])
+
+
+def pen_variant(spec):
+    """A pen that differs from `spec` in one respect: an RGB8 value added to / dropped from / changed on a colour
+    (same index), an attribute given explicitly with its default value or such an attribute dropped (another pen
+    with the same rendition), one attribute changed, or nothing at all."""
+    it = pen_items(spec)
+    cols = [k for k in ("fg", "bg") if k in it]
+    for _ in range(8):
+        k = rng.random()
+        if k < 0.34:
+            plain = [c for c in cols if "#" not in it[c]]
+            if plain:
+                c = rng.choice(plain); it[c] += "#" + rng.choice(RGBS); variants["rgb8-added"] += 1
+            else:
+                c = rng.choice([c for c in ("fg", "bg") if c not in it] or ["fg"])
+                if c in it: continue
+                it[c] = str(rng.choice([-1, 0, 1, 7])) + "#" + rng.choice(RGBS); variants["colour-with-rgb8-added"] += 1
+        elif k < 0.54:
+            rich = [c for c in cols if "#" in it[c]]
+            if not rich: continue
+            c = rng.choice(rich); it[c] = it[c].split("#")[0]; variants["rgb8-dropped"] += 1
+        elif k < 0.68:
+            rich = [c for c in cols if "#" in it[c]]
+            if not rich: continue
+            c = rng.choice(rich); idx, v = it[c].split("#"); it[c] = idx + "#" + rgb_neighbour(v); variants["rgb8-changed"] += 1
+        elif k < 0.76:
+            absent = [a for a in ATTR_ORDER if a not in it]
+            if not absent: continue
+            a_ = rng.choice(absent); it[a_] = DEFAULTS[a_]; variants["default-made-explicit"] += 1
+        elif k < 0.82:
+            dflt = [a for a in it if it[a] == DEFAULTS[a]]
+            if not dflt: continue
+            del it[rng.choice(dflt)]; variants["explicit-default-dropped"] += 1
+        elif k < 0.92:
+            a_ = rng.choice(["fg", "bg", "b", "u", "i"])
+            if a_ in ("fg", "bg"):
+                rest = it[a_].split("#")[1:] if a_ in it else []
+                it[a_] = "#".join([str(rng.choice([0, 1, 2, 7]))] + rest)
+            else:
+                it[a_] = str(rng.randint(0, 1))
+            variants["attribute-changed"] += 1
+        else:
+            variants["identical"] += 1
+        break
+    return pen_spec(it)
+
+
 def gen_pen():
     if rng.random() < 0.05:
         return "NULL"
@@ -73,7 +147,7 @@ def gen_pen():
         idx = rng.choice([-1, 0, 1, 2, 3, 7, 8, 15, 255])
         s = f"{name}={idx}"
         if rng.random() < 0.25:
-            s += "#" + rng.choice(["ff0000", "00ff00", "102030"])
+            s += "#" + rng.choice(RGBS)
         return s
     p = rng.choice([0.2, 0.4])
     if rng.random() < 0.5: items.append(colour("fg"))
@@ -95,6 +169,12 @@ class Hist:
         self.cur = 0
         self.depth = 0
         self.xl = (0, 0)
+        # what the generator knows of each buffer while it is drawn (no stack, clip or translation yet): the current
+        # pen and which cells hold line segments drawn with which pen (approximate; only used to aim rectangles)
+        self.pens = ["-"]
+        self.lcells = [{}]
+        self.vc = None
+        self.family = None
 
     @property
     def L(self): return self.dims[self.cur][0]
@@ -104,6 +184,36 @@ class Hist:
     def emit(self, s):
         self.ops.append(s)
         stats[s.split()[0]] += 1
+        self.track(s.split())
+
+    def track(self, t):
+        op = t[0]
+        if op == "addbuf":
+            self.pens.append("-"); self.lcells.append({})
+            return
+        lc = self.lcells[self.cur]; L, C = self.L, self.C
+        v = [int(x) for x in t[1:] if x.lstrip("-").isdigit() and len(x) < 8]
+        if op == "setpen":
+            self.pens[self.cur] = pen_spec(pen_items(t[1]))
+        elif op == "hline":
+            for c in range(max(v[1], 0), min(v[2], C - 1) + 1):
+                if 0 <= v[0] < L: lc[(v[0], c)] = self.pens[self.cur]
+        elif op == "vline":
+            for l in range(max(v[0], 0), min(v[1], L - 1) + 1):
+                if 0 <= v[2] < C: lc[(l, v[2])] = self.pens[self.cur]
+        elif op in ("text_at", "erase_at", "skip_at"):
+            for c in range(max(int(t[2]), 0), C): lc.pop((int(t[1]), c), None)
+        elif op == "char_at":
+            lc.pop((v[0], v[1]), None)
+        elif op in ("eraserect", "skiprect"):
+            for l in range(v[0], v[0] + v[2]):
+                for c in range(v[1], v[1] + v[3]): lc.pop((l, c), None)
+        elif op == "clear":
+            lc.clear()
+        elif op == "goto":
+            self.vc = (v[0], v[1])
+        elif op in ("text", "erase") and self.vc:
+            for c in range(max(self.vc[1], 0), C): lc.pop((self.vc[0], c), None)
 
     def inrect(self, minl=1, minc=1):
         """A rectangle inside the current buffer."""
@@ -148,6 +258,79 @@ class Hist:
             else:
                 self.emit("clear")
 
+    def draw_lines(self, n, wide_ok=True):
+        """A drawing program of line segments in pens of one family: every new pen is a variant (`pen_variant`) of an
+        earlier one, so that line cells whose pens differ in a single respect - an RGB8 value on the same colour
+        index, an explicit default - come to lie next to and across one another."""
+        L, C = self.L, self.C
+        if self.family is None:
+            base = gen_pen()
+            for _ in range(3):
+                if "fg=" in base or "bg=" in base: break
+                base = gen_pen()
+            self.family = [pen_spec(pen_items(base))]
+        self.emit(f"setpen {rng.choice(self.family)}")
+        for _ in range(n):
+            r = rng.random()
+            line = rng.randint(0, L - 1)
+            if r < 0.34 or (_ == n // 2 and len(self.family) == 1):
+                new = pen_variant(rng.choice(self.family))
+                self.family.append(new)
+                self.emit(f"setpen {new}")
+            elif r < 0.64:
+                c1 = rng.randint(0, C - 1); c2 = min(C - 1, c1 + rng.randint(0, C))
+                self.emit(f"hline {line} {c1} {c2} {rng.randint(1, 3)} {rng.randint(0, 3)}")
+            elif r < 0.90:
+                l2 = min(L - 1, line + rng.randint(0, L))
+                self.emit(f"vline {line} {l2} {rng.randint(0, C - 1)} {rng.randint(1, 3)} {rng.randint(0, 3)}")
+            else:
+                self.draw(1, wide_ok)
+
+    def redraw_lines(self, ops):
+        """Some of the line operations of another buffer again (same or neighbouring position) in variant pens: the
+        source of a blit whose line cells land on the destination's."""
+        L, C = self.L, self.C
+        for o in ops:
+            t = o.split()
+            if t[0] not in ("hline", "vline") or rng.random() < 0.4:
+                continue
+            if rng.random() < 0.6:
+                new = pen_variant(rng.choice(self.family)); self.family.append(new)
+                self.emit(f"setpen {new}")
+            v = [int(x) for x in t[1:]]
+            d = rng.choice([0, 0, 0, 1, -1])
+            if t[0] == "hline":
+                l = min(max(v[0] + d, 0), L - 1); c1 = min(v[1], C - 1); c2 = min(v[2], C - 1)
+                self.emit(f"hline {l} {c1} {c2} {v[3]} {v[4]}")
+            else:
+                c = min(max(v[2] + d, 0), C - 1); l1 = min(v[0], L - 1); l2 = min(v[1], L - 1)
+                self.emit(f"vline {l1} {l2} {c} {v[3]} {v[4]}")
+
+    def pair_lines(self):
+        """Source rectangle and destination position that put a line cell onto another line cell (of another pen,
+        mostly), or None."""
+        L, C = self.L, self.C
+        lc = self.lcells[self.cur]
+        cells = sorted(lc)
+        if len(cells) < 2:
+            return None
+        s = rng.choice(cells)
+        others = [d for d in cells if d != s and lc[d] != lc[s]]
+        same = [d for d in cells if d != s and lc[d] == lc[s]]
+        if others and (not same or rng.random() < 0.85):
+            d = rng.choice(others); merges["line-onto-line-other-pen"] += 1
+        else:
+            d = rng.choice(same); merges["line-onto-line-same-pen"] += 1
+        n = rng.randint(1, L); c = rng.randint(1, C)
+        t = rng.randint(max(0, s[0] - n + 1), min(s[0], L - n)); l = rng.randint(max(0, s[1] - c + 1), min(s[1], C - c))
+        dt = t + d[0] - s[0]; dl = l + d[1] - s[1]
+        inside = 0 <= dt and dt + n <= L and 0 <= dl and dl + c <= C
+        overlap = abs(dt - t) < n and abs(dl - l) < c
+        classes["line-onto-line"] += 1
+        classes["overlapping" if overlap else "disjoint"] += 1
+        classes["dest-inside" if inside else "dest-partly-outside"] += 1
+        return (dt, dl, t, l, n, c) + self.destsize(dt, dl, n, c)
+
     def prologue(self):
         """Make the auxiliary state non-neutral (so that a disturbance of it is visible)."""
         r = rng.random()
@@ -162,7 +345,11 @@ class Hist:
             if rng.random() < 0.3:
                 self.emit(rng.choice(["save", "savepen"])); self.depth += 1; aux["nested"] += 1
         if rng.random() < 0.6:
-            self.emit(f"setpen {gen_pen()}"); aux["setpen"] += 1
+            if self.family and rng.random() < 0.6:
+                self.emit(f"setpen {pen_variant(rng.choice(self.family))}"); aux["setpen-variant"] += 1
+            else:
+                self.emit(f"setpen {gen_pen()}")
+            aux["setpen"] += 1
         if rng.random() < 0.35:
             t, l, n, c = self.inrect()
             n = min(n, 2); c = min(c, 3)
@@ -179,6 +366,9 @@ class Hist:
     def pair(self):
         """Source rectangle inside the buffer and a destination position, by overlap class."""
         L, C = self.L, self.C
+        if self.family and rng.random() < 0.75:
+            p = self.pair_lines()
+            if p: return p
         t, l, n, c = self.inrect()
         k = rng.random()
         if k < 0.03:
@@ -251,13 +441,27 @@ def random_history():
     sizes[f"{L}x{C}"] += 1
     h = Hist(L, C)
     wide_ok = rng.random() < 0.35
-    h.draw(rng.randint(2, 9), wide_ok)
+    # a share of the histories draws mostly line segments, in pens that are variants of one another
+    lines_mode = rng.random() < 0.24
+    if lines_mode:
+        merges["histories"] += 1
+        if rng.random() < 0.4: h.draw(rng.randint(1, 3), wide_ok)
+        h.draw_lines(rng.randint(4, 10), wide_ok)
+    else:
+        h.draw(rng.randint(2, 9), wide_ok)
     if rng.random() < 0.22:
         # blit: a second buffer with its own program
         L2 = rng.choice([1, 2, 3, L, L]); C2 = rng.choice([2, 4, C, C, C + 2])
+        if lines_mode and rng.random() < 0.7: L2, C2 = L, C
         h.emit(f"addbuf {L2} {C2}"); h.dims.append((L2, C2))
         h.emit("sel 1"); h.cur = 1
-        h.draw(rng.randint(1, 7), wide_ok)
+        if lines_mode:
+            first = list(h.ops)
+            if rng.random() < 0.5: h.draw_lines(rng.randint(1, 4), wide_ok)
+            else: h.emit(f"setpen {pen_variant(rng.choice(h.family))}")
+            h.redraw_lines(first)
+        else:
+            h.draw(rng.randint(1, 7), wide_ok)
         if rng.random() < 0.3:
             h.emit(f"xl {rng.randint(-1, 1)} {rng.randint(-1, 1)}")     # a translation on the *source* is ignored
         h.emit("sel 0"); h.cur = 0
@@ -293,6 +497,9 @@ CONTENTS = [
     ["text_at 0 1 61626364", "skip_at 0 2 2", "setpen fg=3", "erase_at 1 0 6", "skip_at 1 2 1", "char_at 2 0 65", "char_at 2 1 66", "char_at 2 5 67"],
     ["text_at 0 0 61efbca162", "text_at 1 1 78cc81797a", "text_at 2 0 e4b880e4b880e4b880"],
     ["setpen fg=2,u=1", "text_at 0 0 616263646566", "setpen bg=5", "text_at 0 2 7879", "setpen -", "hline 1 0 3 1 0", "setpen i=1", "erase_at 1 2 3", "text_at 2 1 717273"],
+    # line cells in pens that differ only by an RGB8 value on the same colour index (none / #000000 / #000001) or by an explicit default
+    ["setpen fg=0", "hline 0 0 5 1 0", "vline 0 2 1 1 0", "setpen fg=0#000000", "hline 1 0 3 1 0", "vline 0 2 4 1 0",
+     "setpen fg=0#000001", "hline 2 0 2 1 0", "setpen fg=0,b=0", "hline 2 3 5 1 0", "vline 1 2 3 2 0"],
 ]
 PROLOGUES = [
     [],
@@ -362,7 +569,7 @@ def exhaustive():
 lines = []
 if a.tier == "exhaustive":
     lines, n, nc = exhaustive()
-    info = {"histories": n, "exhaustive_bound": "3x6 buffer: %d contents (8 hand-made, the rest from a fixed stream) x {neutral state: copy and move; one auxiliary prologue: copy} x every source rectangle (126) x every destination position that keeps it inside the buffer (1274 pairs); hand-made contents: every move also with a 1x1 and a 3x6 destination rectangle" % nc}
+    info = {"histories": n, "exhaustive_bound": "3x6 buffer: %d contents (%d hand-made, the rest from a fixed stream) x {neutral state: copy and move; one auxiliary prologue: copy} x every source rectangle (126) x every destination position that keeps it inside the buffer (1274 pairs); hand-made contents: every move also with a 1x1 and a 3x6 destination rectangle" % (nc, len(CONTENTS))}
 else:
     N = 2600 if a.tier == "quick" else 12000
     for _ in range(N):
@@ -370,5 +577,6 @@ else:
     info = {"histories": N}
 open(a.out, "w").write("\n".join(lines) + "\n")
 info.update({"ops": len(lines), "op_mix": dict(stats.most_common()), "pair_classes": dict(classes.most_common()),
-             "aux_state": dict(aux.most_common()), "dest_rect_size": dict(dsizes.most_common()), "buffer_sizes": dict(sizes.most_common(8))})
+             "aux_state": dict(aux.most_common()), "dest_rect_size": dict(dsizes.most_common()),
+             "pen_variants": dict(variants.most_common()), "aimed_line_merges": dict(merges.most_common()), "buffer_sizes": dict(sizes.most_common(8))})
 print(json.dumps(info))
